@@ -52,6 +52,8 @@ def run(ck, prog):
             return {"key": k, "forgets": "the order in which the sites were stored", "needed_by": "status tuples pair flags with sites by position"}
         return None
     ck.attempt(check_memos, ck, prog, decide_lossy=decide)
+    from props.common import check_index_truthiness, FUNCS
+    ck.attempt(check_index_truthiness, ck, prog, FUNCS["C16"], {"self.phosphosites", "phosphosites"}, "the stored phosphosites (0-based positions)")
     ck.explanation = (
         "The body of the setter's loop is enumerated into a decision table for one generic requested site (an integer atom), "
         "with `residue at that index is S/T/Y` and `index already stored` as uninterpreted booleans and the append recorded as "
